@@ -273,9 +273,13 @@ func opDrop(paths [][]int) sx.V { return sx.L(sx.A("drop"), pathsSx(paths)) }
 // c18MultiOracle judges every operation of a history by itself: the expected
 // outcome of operation i depends on (source, operation i) only.
 func c18MultiOracle(c *Ctx, in sx.V, src *c18Src, ops []sx.V, out sx.V) {
+	c18MultiOracleKind(c, "c18.multi", in, src, ops, out)
+}
+
+func c18MultiOracleKind(c *Ctx, kind string, in sx.V, src *c18Src, ops []sx.V, out sx.V) {
 	if out.K != sx.KL || len(out.List) != len(ops) {
 		if _, _, ok := src.level0(0); ok {
-			c.Fail("c18.multi", in, "history-shape", "the history did not yield one result per operation")
+			c.Fail(kind, in, "history-shape", "the history did not yield one result per operation")
 		}
 		return
 	}
@@ -287,9 +291,9 @@ func c18MultiOracle(c *Ctx, in sx.V, src *c18Src, ops []sx.V, out sx.V) {
 		tag := fmt.Sprintf("operation %d of %d on one prover (%s): ", i+1, len(ops), trunc(op.String(), 80))
 		switch op.Head() {
 		case "key":
-			c18KeyOracle(c, "c18.multi", in, tag, src, op.List[1].Bits, out.List[i])
+			c18KeyOracle(c, kind, in, tag, src, op.List[1].Bits, out.List[i])
 		case "walk":
-			c18WalkOracle(c, "c18.multi", in, tag, src, c18PathsOf(op.List[1]), out.List[i])
+			c18WalkOracle(c, kind, in, tag, src, c18PathsOf(op.List[1]), out.List[i])
 		}
 	}
 }
@@ -474,6 +478,8 @@ func genC18(c *Ctx) {
 	genC18Exotic(c)
 	// 6. concurrent operations on one prover
 	genC18Conc(c)
+	// 7. equal content at several positions: distinct cells / one shared cell
+	genC18Equal(c)
 }
 
 // genC18Exotic: the source given to NewMerkleProver is the body of an earlier
@@ -563,7 +569,7 @@ func genC18Exotic(c *Ctx) {
 		onPath := map[int]bool{0: true}
 		first := map[int]bool{}
 		for k := range keep {
-			pr, _, _ := c18KeyWalk(full, k)
+			_, pr, _, _ := c18KeyWalk2(full, k)
 			for s := range pr {
 				first[s] = true
 			}
